@@ -337,6 +337,11 @@ func (rr RR) Bytes() []byte {
 			if ip4 := data.To4(); rr.Type == 1 && ip4 != nil {
 				data = ip4
 			}
+			// An AAAA record always has 16 octets, also for an
+			// IPv4-mapped address held in 4 bytes.
+			if ip16 := data.To16(); rr.Type == 28 && ip16 != nil {
+				data = ip16
+			}
 			s.AddBytes([]byte(data))
 		case string:
 			if rr.Type == 2 || rr.Type == 5 || rr.Type == 12 { // NS, CNAME, PTR
@@ -393,6 +398,9 @@ func (rr RR) Bytes() []byte {
 				s.AddUint16(6)
 				s.AddUint16LengthPrefixed(func(s *cryptobyte.Builder) {
 					for _, ip := range data.IPv6Hint {
+						if ip16 := ip.To16(); ip16 != nil {
+							ip = ip16
+						}
 						s.AddBytes(ip)
 					}
 				})
